@@ -355,6 +355,17 @@ def histories_and_near_ends(ck):
                     ck.disagree(key='Path.cropped/ends-near-a-joint-far-from-the-origin', site=site + ':Path.cropped', what='path at offset %r: cropped from %g to %g units around joint %d: start, end (minus offset), length = %r; expected %r %r %r' % (
                         off_, d0, d1, j_, got, pth.point(T0) - off_, pth.point(T1) - off_, d1 - d0), case={'off': str(off_), 'joint': j_, 'd0': d0, 'd1': d1}, expected=d1 - d0, observed=repr(got), driver='history')
                     break
+    # (2d) T1 < T0 is a wrap-around crop and exists for closed paths only: an open path refuses it (also for T1 = 0 exactly, T0 = 1 exactly)
+    for T0, T1 in ((0.3, 0.0), (0.7, 0.0), (0.5, 0.25), (0.9, 0.1), (1.0, 0.5) if False else (0.6, 0.59)):
+        pth = base()
+        ck.case(fp=('open-path-wrap-around', T0, T1), nontrivial=True)
+        try:
+            got = pth.cropped(T0, T1)
+        except Exception as e:      # noqa
+            got = e
+        if not isinstance(got, Exception):
+            ck.disagree(key='Path.cropped/wrap-around-on-an-open-path', site=site + ':Path.cropped', what='open path: cropped(%r, %r) returned %r (from %r to %r)' % (T0, T1, got, got.start if len(got) else None, got.end if len(got) else None),
+                        case={'T0': T0, 'T1': T1}, expected='an exception (the crop would have to pass through a closing joint that does not exist)', observed=repr(got), driver='history')
     # (3) crops that end (start) a hair before (after) the end (start) of a Bezier: no snapping beyond rounding
     for z in ([0j, 40 + 100j, 100 + 0j], [0j, 40 + 100j, 80 - 60j, 100 + 0j], [3 + 1j, 3 + 1j, 9 + 9j, 12 - 3j]):
         sg = make(z)
